@@ -250,7 +250,7 @@ def _work(job):
 _H = {"m2": {"st": "ok", "err": "none", "salt": "ok", "pk": "ok", "cut": 0},
       "m4": {"st": "ok", "err": "none", "proof": "right", "mfi": False, "cut": 0},
       "m6": {"st": "ok", "err": "none", "enc": "sub", "key": "right", "nonce": "PS-Msg06", "id": "AccId", "pk": "accLT", "sigp": True,
-             "signer": "presented", "info": "right", "corrupt": "none", "cut": 0}}
+             "signer": "presented", "info": "right", "corrupt": "none", "alter": "flip", "cut": 0}}
 
 
 def _short(c, j=None):
@@ -279,7 +279,7 @@ def _site(c):
         return "m2", "pk2"
     if c["m4"]["proof"] == "corrupt":
         return "m4", "proof"
-    if c["m6"]["corrupt"] != "none":
+    if c["m6"]["corrupt"] != "none" and c["m6"]["alter"] == "flip":
         return "m6", c["m6"]["corrupt"]
     return None, None
 
